@@ -32,7 +32,7 @@ func reg(c PropCfg) PropCfg { cfgs[c.ID] = c; return c }
 
 var cfgC02 = reg(PropCfg{
 	ID: "C02",
-	Profile: &Profile{PGovRaise: 15, PQuorumConflict: 10, PReimport: 3, Weights: mixedWeights(), PBulk: 14, MinBlocks: 8, MaxBlocks: 40, MaxTxs: 4, MaxOps: 3, PUpper: 5, PActor: 8, PNamed: 2, PFault: 4, PExec: 8,
+	Profile: &Profile{PGovRaise: 15, PQuorumConflict: 10, PReimport: 8, Weights: mixedWeights(), PBulk: 14, MinBlocks: 8, MaxBlocks: 40, MaxTxs: 4, MaxOps: 3, PUpper: 5, PActor: 8, PNamed: 2, PFault: 4, PExec: 8,
 		PGovParams: 6, PBadRef: 5, Vesting: true, TinyLimits: true, ValidParams: true, LongTime: true, EntDenomChange: true},
 	Rule: "history (generated genesis + blocks of signed txs) with >=1 block in which an order completes and >=1 successful non-enterprise tx in a block without completion; distinct by scenario hash",
 	NonTrivial: func(w *World) bool {
@@ -44,7 +44,7 @@ var cfgC02 = reg(PropCfg{
 
 var cfgC03 = reg(PropCfg{
 	ID: "C03",
-	Profile: &Profile{PGovRaise: 10, PQuorumConflict: 15, PReimport: 3, Weights: entWeights(), PBulk: 12, MinBlocks: 5, MaxBlocks: 35, MaxTxs: 4, MaxOps: 2, PUpper: 15, PActor: 8, PNamed: 1, PFault: 2, PExec: 6,
+	Profile: &Profile{PGovRaise: 10, PQuorumConflict: 15, PReimport: 8, Weights: entWeights(), PBulk: 12, MinBlocks: 5, MaxBlocks: 35, MaxTxs: 4, MaxOps: 2, PUpper: 15, PActor: 8, PNamed: 1, PFault: 2, PExec: 6,
 		PGovParams: 8, PBadRef: 4, ValidParams: true},
 	Rule: "history in which >=1 order reaches completed and >=1 reaches rejected, or parameters change while an order is raised/accepted",
 	NonTrivial: func(w *World) bool {
@@ -56,7 +56,7 @@ var cfgC03 = reg(PropCfg{
 
 var cfgC04 = reg(PropCfg{
 	ID: "C04",
-	Profile: &Profile{PReimport: 3, Weights: c04Weights(), PBulk: 8, PEscrow: 25, LockedActors: true, MultiPct: 20, PGranter: 12, PFeePayer: 8, MinBlocks: 8, MaxBlocks: 40, MaxTxs: 4, MaxOps: 3, PUpper: 5, PActor: 10, PNamed: 2, PFault: 5, PExec: 6,
+	Profile: &Profile{PReimport: 8, Weights: c04Weights(), PBulk: 8, PEscrow: 25, LockedActors: true, MultiPct: 20, PGranter: 12, PFeePayer: 8, MinBlocks: 8, MaxBlocks: 40, MaxTxs: 4, MaxOps: 3, PUpper: 5, PActor: 10, PNamed: 2, PFault: 5, PExec: 6,
 		PGovParams: 0, PBadRef: 5, Vesting: true, TinyLimits: true, ValidParams: true, FeeModes: []int{FeeExact, FeeExact, FeeExact, FeeLower, FeeHigher, FeeNone, FeeExactPlusExtraDenom, FeeExactPlusExtraDenom}},
 	Rule: "history with >=1 completion and >=1 partial unlock (0 < fee < locked) or a failed fee-paying tx of a locked payer",
 	NonTrivial: func(w *World) bool {
@@ -68,7 +68,7 @@ var cfgC04 = reg(PropCfg{
 
 var cfgC05 = reg(PropCfg{
 	ID: "C05",
-	Profile: &Profile{PReimport: 3, Weights: map[string]int{FeeGrantOp: 3, EntRaise: 14, EntDecide: 28, EntWL: 3, WrkReg: 8, WrkRec: 14, WrkPur: 4, BcnReg: 7, BcnRec: 12, BcnPur: 3, BankSend: 5, StrCreate: 3, StrClaim: 2, StrCancel: 1, StakeDeleg: 1},
+	Profile: &Profile{PReimport: 8, Weights: map[string]int{FeeGrantOp: 3, EntRaise: 14, EntDecide: 28, EntWL: 3, WrkReg: 8, WrkRec: 14, WrkPur: 4, BcnReg: 7, BcnRec: 12, BcnPur: 3, BankSend: 5, StrCreate: 3, StrClaim: 2, StrCancel: 1, StakeDeleg: 1},
 		PBulk: 10, MinBlocks: 8, MaxBlocks: 40, MaxTxs: 4, MaxOps: 3, MultiPct: 30, PSameKind: 25, LockedActors: true, PGranter: 12, PFeePayer: 10, PUpper: 5, PActor: 10, PNamed: 3, PFault: 8, PExec: 8,
 		PGovParams: 0, PBadRef: 5, Vesting: true, TinyLimits: true, ValidParams: true, FeeModes: []int{FeeExact, FeeExact, FeeExact, FeeLower, FeeHigher, FeeNone, FeeExactPlusExtraDenom}},
 	Rule: "history containing >=1 tx whose fee payer has locked eFUND > 0",
